@@ -796,6 +796,13 @@ def index_term(ev, idx):
 
 
 def num_getitem(ev, obj: Num, idx, fr, node):
+    out = _num_getitem(ev, obj, idx, fr, node)
+    if isinstance(out, Num) and out is not obj and out.base is None and out.shape and not any(isinstance(i, (NdArr,)) for i in _norm_index(ev, idx)):
+        out.base = obj        # basic indexing gives a view
+    return out
+
+
+def _num_getitem(ev, obj: Num, idx, fr, node):
     from .symeval import Raised
     items = _norm_index(ev, idx)
     if obj.shape is None and obj.tag not in ("data", "filled") and obj.kind in ("number", "quantity", "time") \
@@ -1373,7 +1380,17 @@ def can_cast_safe(src, dst):
         return None
 
 
+VIEW_METHODS = {"reshape", "swapaxes", "transpose", "view", "squeeze", "ravel"}
+
+
 def num_method(ev, x: Num, name, args, kwargs, fr, node):
+    out = _num_method(ev, x, name, args, kwargs, fr, node)
+    if name in VIEW_METHODS and isinstance(out, Num) and out is not x and out.base is None:
+        out.base = x          # NumPy returns a view of x here (whenever it can): writes through it reach x
+    return out
+
+
+def _num_method(ev, x: Num, name, args, kwargs, fr, node):
     from .symeval import Raised
     if name in ("to", "to_value", "isclose") and x.kind in ("number", "array", "bool") and x.tag != "unit":
         raise Raised("AttributeError", node, f"plain number/array has no .{name}")
